@@ -1,8 +1,10 @@
+\* thorough-tier exhaustive configuration; families/mempool.py writes the same text with the invariants of the property under check
 SPECIFICATION Spec
 CONSTANTS
   Ent = {1, 2, 3, 4, 5, 6}
   Tab <- TabU6
   Senders <- SendersABX
+  Defects <- AllDefects
   Cap = 3
   PerSender = 2
   MaxLast = 2
@@ -11,7 +13,6 @@ CONSTANTS
   MaxBlk = 2
   LevelFee = TRUE
   TierAt = 2
-  Defects <- AllDefects
   MaxRm = 1
   QueryOn = FALSE
   NodeRig = FALSE
